@@ -199,8 +199,19 @@ func CheckPPDrive(prop string, c *Case, cov *Cov) []*Violation {
 	if len(c.Extra) > 0 {
 		json.Unmarshal(c.Extra, &flags)
 	}
+	htmlMode := false
+	for i, f := range flags {
+		if f == "-html" && i+1 < len(flags) {
+			htmlMode = true
+			defer os.Remove(flags[i+1])
+		}
+	}
 	rend := make([][]byte, len(s.Dumps))
 	for i, d := range s.Dumps {
+		if htmlMode {
+			rend[i] = []byte{} // the rendering goes to the HTML file, the text around it to stdout
+			continue
+		}
 		o, err := ppAlone(bin, gen.Render(gen.SubDoc(c.Doc, d.Item)).Bytes, flags...)
 		if err != nil {
 			add("pp-exit", "", fmt.Sprintf("pp on dump #%d alone failed: %v", i, err))
@@ -357,7 +368,10 @@ func postPPDrive(prop string) func(seed uint64, tier string, cov *Cov) ([]*Viola
 					continue
 				}
 				c := &Case{Prop: prop, Run: uint64(i), Seed: seed, Mode: "ppdrive", Doc: doc, Sched: sc, NameArgs: true}
-				if fl := [][]string{nil, nil, {"-f", "ZZZNOMATCH"}, {"-m", "."}, {"-aggressive"}, {"-full-path"}, {"-parse=false"}}[r.Intn(7)]; fl != nil {
+				if fl := [][]string{nil, nil, {"-f", "ZZZNOMATCH"}, {"-m", "."}, {"-aggressive"}, {"-full-path"}, {"-parse=false"}, {"-html", "HTMLFILE"}}[r.Intn(8)]; fl != nil {
+					if fl[0] == "-html" {
+						fl = []string{"-html", fmt.Sprintf("%s/ppdrive-%s-%d-%d.html", os.TempDir(), prop, seed, i)}
+					}
 					c.Extra, _ = json.Marshal(fl)
 				}
 				execs++
@@ -365,6 +379,17 @@ func postPPDrive(prop string) func(seed uint64, tier string, cov *Cov) ([]*Viola
 					if !seen[v.Clause+v.Known] {
 						seen[v.Clause+v.Known] = true
 						vs = append(vs, v)
+					}
+				}
+				if prop == "C11" && i%3 == 0 && !cfg.ExactRaceSep {
+					fc := *c
+					fc.Mode = "ppfifo"
+					fc.Extra = nil
+					for _, v := range CheckPPFifo(&fc, cov) {
+						if !seen[v.Clause+"fifo"] {
+							seen[v.Clause+"fifo"] = true
+							vs = append(vs, v)
+						}
 					}
 				}
 			}
@@ -378,4 +403,175 @@ func init() {
 		p := p
 		extraModes[p+"/ppdrive"] = func(c *Case, cov *Cov) []*Violation { return CheckPPDrive(p, c, cov) }
 	}
+	extraModes["C11/ppfifo"] = CheckPPFifo
+}
+
+// ---- pp <fifo>: the file argument is a live pipe -----------------------------
+
+// waitIdle waits until the child has consumed everything written to fd and
+// every one of its threads sleeps in a wait (futex, epoll, nanosleep, or a
+// read), twice in a row with no new output in between. Go opens a FIFO
+// non-blocking and waits in epoll, so "a thread in read()" does not apply here.
+func (p *ppProc) waitIdle(fd uintptr, watchdog time.Duration) error {
+	deadline := time.Now().Add(watchdog)
+	pid := p.cmd.Process.Pid
+	idleNr := map[string]bool{"202": true, "232": true, "281": true, "35": true, "230": true, "0": true, "7": true, "271": true, "23": true, "270": true, "128": true, "130": true, "186": true}
+	stable := 0
+	lastOut := -1
+	for {
+		select {
+		case <-p.exited:
+			p.drainAll()
+			return fmt.Errorf("child gone: exited with status %d", p.code)
+		default:
+		}
+		idle := false
+		if n, err := fionread(fd); err == nil && n == 0 {
+			idle = true
+			ents, err := os.ReadDir(fmt.Sprintf("/proc/%d/task", pid))
+			if err != nil {
+				return fmt.Errorf("child gone: %v", err)
+			}
+			for _, e := range ents {
+				b, err := os.ReadFile(fmt.Sprintf("/proc/%d/task/%s/syscall", pid, e.Name()))
+				if err != nil {
+					continue
+				}
+				f := strings.Fields(string(b))
+				if len(f) == 0 || !idleNr[f[0]] {
+					idle = false
+					break
+				}
+			}
+		}
+		p.drain()
+		if idle && len(p.out) == lastOut {
+			stable++
+			if stable >= 3 {
+				return nil
+			}
+		} else {
+			stable = 0
+		}
+		lastOut = len(p.out)
+		if time.Now().After(deadline) {
+			return fmt.Errorf("watchdog: child did not become idle within %v", watchdog)
+		}
+		time.Sleep(300 * time.Microsecond)
+	}
+}
+
+// CheckPPFifo drives `pp <fifo>` in lock-step (C11 at the command level when
+// the input is a named pipe given as the file argument).
+func CheckPPFifo(c *Case, cov *Cov) []*Violation {
+	bin := os.Getenv("VERIF_PP_BIN")
+	if bin == "" {
+		panic(ppInfra{fmt.Errorf("VERIF_PP_BIN not set (run through /verif/run.sh)")})
+	}
+	s := c.Stream()
+	b := s.Bytes
+	var vs []*Violation
+	add := func(clause, msg string) {
+		if len(vs) == 0 {
+			vs = append(vs, &Violation{Prop: "C11", Clause: "C11." + clause, Msg: "[pp <fifo> over a named pipe] " + msg, Case: c})
+		}
+	}
+	rend := make([][]byte, len(s.Dumps))
+	for i, d := range s.Dumps {
+		o, err := ppAlone(bin, gen.Render(gen.SubDoc(c.Doc, d.Item)).Bytes)
+		if err != nil {
+			return nil
+		}
+		rend[i] = o
+	}
+	dir, err := os.MkdirTemp("", "ppfifo")
+	if err != nil {
+		panic(ppInfra{err})
+	}
+	defer os.RemoveAll(dir)
+	fifo := dir + "/in.fifo"
+	if err := syscall.Mkfifo(fifo, 0o600); err != nil {
+		panic(ppInfra{err})
+	}
+	// O_RDWR: does not block waiting for the reader; we only ever write
+	wf, err := os.OpenFile(fifo, os.O_RDWR, 0)
+	if err != nil {
+		panic(ppInfra{err})
+	}
+	defer wf.Close()
+	p, err := startPP(bin, fifo)
+	if err != nil {
+		panic(ppInfra{err})
+	}
+	p.inW.Close() // stdin is not used
+	defer func() {
+		select {
+		case <-p.exited:
+		default:
+			p.cmd.Process.Kill()
+			<-p.exited
+		}
+		p.outR.Close()
+	}()
+	// wait until the child has opened the pipe (closing our end before that
+	// would leave it waiting for a writer forever)
+	opened := false
+	for dl := time.Now().Add(30 * time.Second); !opened && time.Now().Before(dl); {
+		select {
+		case <-p.exited:
+			return vs
+		default:
+		}
+		ents, _ := os.ReadDir(fmt.Sprintf("/proc/%d/fd", p.cmd.Process.Pid))
+		for _, e := range ents {
+			if l, err := os.Readlink(fmt.Sprintf("/proc/%d/fd/%s", p.cmd.Process.Pid, e.Name())); err == nil && l == fifo {
+				opened = true
+			}
+		}
+		if !opened {
+			time.Sleep(200 * time.Microsecond)
+		}
+	}
+	if !opened {
+		panic(ppInfra{fmt.Errorf("watchdog: pp did not open the named pipe within 30s")})
+	}
+	sched := c.Sched.FitTo(len(b))
+	off := 0
+	for _, st := range sched.Steps {
+		if st.Op != "w" {
+			continue
+		}
+		if _, err := wf.Write(b[off : off+st.N]); err != nil {
+			return vs
+		}
+		off += st.N
+		if err := p.waitIdle(wf.Fd(), 60*time.Second); err != nil {
+			if strings.HasPrefix(err.Error(), "child gone") {
+				return vs // exit codes are C02's business
+			}
+			panic(ppInfra{err})
+		}
+		if cov != nil {
+			cov.Probe("pp-fifo-block-points")
+		}
+		if exp, missing := expectedSoFar(s, off, rend); !bytes.HasPrefix(p.out, exp) {
+			li := missing(FirstDiff(p.out, exp))
+			add("withheld-line", fmt.Sprintf("pp is idle after %d bytes were written to the named pipe; line %d (%s) was due but is not readable from its stdout (%d bytes so far, %d expected)", off, li, Clip(s.Text(li), 60), len(p.out), len(exp)))
+			break
+		}
+	}
+	wf.Close()
+	done := make(chan struct{})
+	go func() { p.drainAll(); close(done) }()
+	select {
+	case <-p.exited:
+		<-done
+	case <-time.After(60 * time.Second):
+		panic(ppInfra{fmt.Errorf("watchdog: pp <fifo> did not exit within 60s after the pipe was closed")})
+	}
+	if cov != nil {
+		cov.Evaluations++
+		cov.Probe("pp-fifo-executions")
+	}
+	return vs
 }
